@@ -93,8 +93,13 @@ CHECKS.update({
  "C20": bounded_only("histories of read/insert/derivations are run on the real DB and on a reference model that shares and copies set objects as "
         "documented; every live collection is compared after every step; the recorded findings are re-demonstrated by their specific histories;",
         "DESIGN.md §5 C20"),
- "C02": bounded_only("generated paragraphs and multi-paragraph documents are dumped and re-parsed in six input forms x {plain, clearsigned} x "
-        "{comments interleaved or not}, through the constructor and iter_paragraphs;", "DESIGN.md §5 C02"),
+ "C02": dict(bounded_only("", "DESIGN.md §5 C02"),
+        text="Lemmas about the real line patterns are proved for all lines by SMT (dumped 'Key: first' / 'Key:' lines match _single / _multi "
+             "and the groups capture exactly key and first line; continuation lines never start a field and are kept; encoded field lines "
+             "are never armor, separator or initial-blank lines). The parser loop, the six input forms, armor stripping, comments and "
+             "iter_paragraphs are decided by a bounded stand-in: generated paragraphs and multi-paragraph documents are dumped and "
+             "re-parsed in six input forms x {plain, clearsigned} x {comments interleaved or not}.",
+        technique="regex-to-SMT match and capture lemmas on the real patterns + bounded stand-in (generated documents)"),
  "C04": dict(bounded_only("", "DESIGN.md §5 C04"),
         text="Language lemmas about the real changelog patterns are proved for all lines by SMT (well-formed headers match topline, topline "
              "matches contain ';', trailer head and date are accepted by endline's parts, change / blank / header / trailer lines cannot be "
